@@ -311,6 +311,8 @@ pub struct State {
     pub replay_diverged: bool,
     /// shape hash of the executed op sequence (role, kind) — interleaving measure
     pub shape: u64,
+    /// hash of the complete op trace (paths, sizes, results, simulated times)
+    pub trace_fp: u64,
 }
 
 pub struct Shared {
@@ -332,6 +334,21 @@ thread_local! {
     pub static ACTIVITY: Cell<u64> = const { Cell::new(0) };
     /// harness threads that catch_unwind library calls set this to keep stderr quiet
     pub static QUIET_PANICS: Cell<bool> = const { Cell::new(false) };
+    /// accumulated fingerprint of every simulation finished on this (harness) thread
+    pub static RUN_FP: Cell<u64> = const { Cell::new(0) };
+    pub static RUN_FP_DEEP: Cell<bool> = const { Cell::new(false) };
+}
+
+/// Reset / read the per-thread accumulated run fingerprint (determinism self-test).
+pub fn reset_run_fp(deep: bool) {
+    RUN_FP.with(|f| f.set(0x9E37_79B9_7F4A_7C15));
+    RUN_FP_DEEP.with(|d| d.set(deep));
+}
+pub fn take_run_fp() -> u64 {
+    RUN_FP.with(|f| f.get())
+}
+fn mix_run_fp(v: u64) {
+    RUN_FP.with(|f| f.set((f.get() ^ v).wrapping_mul(0x100_0000_01B3).rotate_left(17)));
 }
 
 /// Run `f`, converting a panic into Err(message) without printing it.
@@ -449,6 +466,7 @@ impl State {
             replay_pos: 0,
             replay_diverged: false,
             shape: 0xcbf2_9ce4_8422_2325,
+            trace_fp: 0x1234_5678_9abc_def1,
         };
         if let Policy::Pct { depth, est_steps } = s.cfg.policy {
             for _ in 0..depth {
@@ -687,6 +705,15 @@ impl State {
         h = (h ^ (rec.kind as u64)).wrapping_mul(0x100_0000_01B3);
         h = (h ^ u64::from(rec.ok)).wrapping_mul(0x100_0000_01B3);
         self.shape = h;
+        // full-trace fingerprint (paths, byte counts, pids too) for the determinism self-test
+        let mut f = self.trace_fp;
+        for b in rec.path.bytes().chain(rec.path2.bytes()) {
+            f = (f ^ u64::from(b)).wrapping_mul(0x100_0000_01B3);
+        }
+        for v in [rec.bytes, u64::from(rec.pid), rec.kind as u64, u64::from(rec.ok), rec.errno as u64, rec.t_ns] {
+            f = (f ^ v).wrapping_mul(0x100_0000_01B3);
+        }
+        self.trace_fp = f;
         // clock
         let step = 1_000 + self.rng_io.below(2_000_000);
         self.world.clock_ns += step;
@@ -1360,6 +1387,7 @@ pub struct Outcome {
     pub replay_diverged: bool,
     pub stats: Stats,
     pub shape: u64,
+    pub trace_fp: u64,
     pub captures: Vec<Vec<u8>>,
 }
 
@@ -1496,6 +1524,7 @@ impl Sim {
             replay_diverged: st.replay_diverged,
             stats: st.stats.clone(),
             shape: st.shape,
+            trace_fp: st.trace_fp,
             captures: caps,
         };
         // attach captured output
@@ -1508,7 +1537,50 @@ impl Sim {
             }
         }
         st.hooks.clear();
+        mix_run_fp(out.trace_fp);
+        mix_run_fp(out.stats.steps);
+        if RUN_FP_DEEP.with(|d| d.get()) {
+            // outputs and the complete final world (bytes and mtimes of every file on every host)
+            for c in &out.captures {
+                for b in c {
+                    mix_run_fp(u64::from(*b));
+                }
+            }
+            for p in &out.procs {
+                mix_run_fp(match &p.exit {
+                    ExitKind::Code(c) => *c as u64,
+                    ExitKind::Aborted(_) => 1000,
+                    ExitKind::Killed => 1001,
+                });
+            }
+            for (h, fsys) in &out.world.hosts {
+                for b in h.bytes() {
+                    mix_run_fp(u64::from(b));
+                }
+                for (path, (bytes, mt)) in fsys.tree("/") {
+                    for b in path.bytes() {
+                        mix_run_fp(u64::from(b));
+                    }
+                    mix_run_fp(bytes.len() as u64);
+                    for b in blake3_lite(&bytes) {
+                        mix_run_fp(b);
+                    }
+                    mix_run_fp(mt);
+                }
+            }
+        }
         out
     }
 }
 
+
+/// cheap content digest for the self-test fingerprint (no crypto needed)
+fn blake3_lite(b: &[u8]) -> [u64; 2] {
+    let mut h1 = 0xcbf2_9ce4_8422_2325u64;
+    let mut h2 = 0x8422_2325_cbf2_9ce4u64;
+    for x in b {
+        h1 = (h1 ^ u64::from(*x)).wrapping_mul(0x100_0000_01B3);
+        h2 = (h2.rotate_left(5) ^ u64::from(*x)).wrapping_mul(0x9E37_79B9_7F4A_7C15);
+    }
+    [h1, h2]
+}
